@@ -262,7 +262,7 @@ template <class T> static void sweep (uint64_t seed, bool thorough)
     const T dn = std::numeric_limits<T>::denorm_min ();
     Rng     g{seed * 0x9E3779B97F4A7C15ull + 12345};
     for (int i = 0; i < 4; ++i) g.next ();
-    std::vector<T> D = {T (0), dn, -dn, T (1e-30), T (-1e-30), T (1), T (-1), T (1e30), T (-1e30), M / 2, -M / 2};
+    std::vector<T> D = {T (0), T (1), T (-1), dn, -dn, T (1e-30), T (-1e-30), T (1e30), T (-1e30), M / 2, -M / 2};
     std::vector<SweepBox<T>> boxes;
     auto add = [&] (const char* name, const Box<Vec3<T>>& b) { SweepBox<T> sb; sb.name = name; sb.b = b; boxes.push_back (sb); };
     // --- deterministic
@@ -273,7 +273,7 @@ template <class T> static void sweep (uint64_t seed, bool thorough)
         SweepBox<T> sb;
         sb.name = "fixed-overflow";
         sb.b    = Box<Vec3<T>> (Vec3<T> (M / 2, -1, -1), Vec3<T> (M, 1, 1));
-        sb.P[0] = {-M, -M / 2, T (0)};
+        sb.P[0] = {-M, -M / 2};
         sb.P[1] = {T (-3), T (0)};
         sb.P[2] = {T (0)};
         boxes.push_back (sb);
